@@ -709,8 +709,14 @@ impl Campaign for FirstEmitRace {
                         let _ = util::catch(|| ());
                         barrier.wait();
                         for m in metrics {
-                            if let Ok(Ok(_)) = util::catch(|| h.emit(&m)) {
-                                acked.push(m);
+                            match util::catch(|| h.emit(&m)) {
+                                Ok(Ok(_)) => acked.push(m),
+                                Ok(Err(_)) => {}
+                                Err(p) => {
+                                    // reported through a marker entry (judged below)
+                                    acked.push(format!("\u{1}PANIC {}", p));
+                                    break;
+                                }
                             }
                         }
                         end.wait();
@@ -720,6 +726,10 @@ impl Campaign for FirstEmitRace {
                 }
                 hs.into_iter().map(|h| h.join().unwrap_or_default()).collect()
             });
+            if let Some(p) = acked.iter().flatten().find(|m| m.starts_with('\u{1}')) {
+                verdict = Err((QRule::Panic, format!("trial {}: emit panicked in a producer making one of the first emits: {}", trial, &p[7..])));
+                break;
+            }
             let total: usize = acked.iter().map(|a| a.len()).sum();
             if !gate.wait_until(w, |g| g.exited >= total) {
                 let got = gate.lock().exited;
